@@ -66,11 +66,11 @@ CHECKS = {
          "every subset of <=3/4 of six candidate module files, two requiring locations, seven module strings, three call forms and both separators, before and after one watched create/delete event: the type-6 diagnostic, go-to-definition and hover on the string and the file the analysis loaded must agree, modules existing at the documented path must resolve to a file with that trailing path, modules for which no such file exists must be reported, and the verdict must flip at once after the event",
          "trusted: the documented mapping as stated by the property (name.lua then name/init.lua relative to the root or the requiring file's directory); fuzzy suffix matches, equally ranked duplicates (C09's subject), other-separator strings and native .so modules are don't-care",
          "DESIGN.md §4 C18"),
- 'C09': ("stateless schedule exploration (deviation-bounded DFS with prefix replay) of the real server under a controlled runtime, crossed with pool width and every start offset of Go's map iteration; all executions of a workspace must give identical observables",
+ 'C09': ("stateless schedule exploration (deviation-bounded DFS with prefix replay) of the real server under a controlled runtime, crossed with pool width and every start offset of Go's map iteration; all executions of a workspace must give identical observables; plus directory-listing order (os overlay: natural/reversed/rotated) and, as a non-exhaustive complement, a free-running pass of the same closed systems under Go's race detector",
          "the instrumented build runs every goroutine start, channel operation, reflect.Select choice, mutex/WaitGroup operation (and, in a second pass, every entry of a method of the shared objects) under a scheduler owned by the explorer, and the Go runtime's map-iteration start position is fixed per execution through a runtime overlay; five collision-prone workspaces are started and queried under every schedule with <=1-2 deviations x NumCPU {1,2} x 8 map offsets, and the normalised observables must equal those of the canonical execution",
          "trusted: the controlled runtime (overlay/vrt) and the syntactic instrumenter (cmd/vinstr): an operation it does not know would block outside the scheduler and is reported as a harness error; granularity and bounds as stated in the evidence; memory-model effects below the instrumented operations are out of scope",
          "DESIGN.md §4 C09, §8.4"),
- 'C10': ("stateless schedule exploration of the real handlers under the controlled runtime for every word of 2-3 in-flight messages allowed by the dispatcher model (TLA+ model checked by TLC, all its behaviours replayed against the real jrpc2.Server); oracles: lockset/overlap check, no panic/deadlock, every answer produced by some sequential order",
+ 'C10': ("stateless schedule exploration of the real handlers under the controlled runtime for every word of 2-3 in-flight messages allowed by the dispatcher model (TLA+ model checked by TLC, all its behaviours replayed against the real jrpc2.Server); oracles: lockset/overlap check, no panic/deadlock, every answer produced by some sequential order; plus, as a non-exhaustive complement, every ordered pair and request-notification-request triple of 19 messages sent back to back to the real jrpc2 server in a -race build (any race report with a repository frame is a violation)",
          "each of 15 message kinds is paired with every other (and tripled in thorough); every interleaving with <=2-3 deviations at lock, channel and shared-object method-entry points is executed on the real handlers; a conflicting overlap of two activations on the same shared object without a common lock, a panic, a deadlock, or an answer that no sequential order produces is a violation; the harness dispatches handlers exactly as tla/Dispatch.tla allows, and every TLC behaviour for <=3 (thorough: 4) messages is replayed against the real dispatcher with gated stubs",
          "trusted: overlay/vrt, cmd/vinstr (syntactic writer classification), tla/Dispatch.tla as the model of jrpc2's dispatch; interleaving granularity = synchronisation operations and shared-object method entries; sequential specification = the same build on one thread",
          "DESIGN.md §4 C10, Appendix A, §8.4"),
@@ -111,7 +111,7 @@ def main():
      "setup_cmd": "sh /verif/build.sh",
      "hooks": {
        "guard": "verif",
-       "enable": "go build -tags verif -overlay /verif/.build/overlay.json: the overlay (accessor file, the virtual packages langserver/vrt and vrt/vsync, instrumented copies of all langserver sources, two Go runtime hook files) is generated by /verif/bin/vinstr from /repo's working tree on every build; nothing is committed to /repo",
+       "enable": "go build -tags verif -overlay /verif/.build/overlay.json: the overlay (accessor file, the virtual packages langserver/vrt and vrt/vsync, instrumented copies of all langserver sources, two Go runtime hook files for the map-iteration start position and the goroutine id, two package-os hook files permuting whole-directory reads) is generated by /verif/bin/vinstr from /repo's working tree on every build; nothing is committed to /repo; bin/vcheck-race is the same program built with -race for the free-running race-detector pass of C09/C10",
        "baseline_off_cmd": "cd /repo/luahelper-lsp && GOFLAGS=-mod=mod go test -json -vet=off -count=1 -timeout 25m ./...",
        "source_commits": [],
        "add_only": True,
